@@ -89,7 +89,8 @@ def cases(tier, seed):
                 i += 1
     # sources of opposite sign close enough to share ONE island (islands are found on |signal-to-noise|)
     for sep in (3.0, 4.0, 5.0, 6.0):
-        yield "mixed_island", dict(sep=sep)
+        for neg_peak in (-0.8, -1.25):
+            yield "mixed_island", dict(sep=sep, neg_peak=neg_peak)
 
 
 def header():
@@ -296,15 +297,22 @@ def ev_mixed_island(case, ctx):
     hdr = header()
     sep = case["sep"]
     pt = lambda rr, cc, peak: skygauss.source_at_pixel(hdr, rr, cc, peak, 4.0, 3.0, 20.0)
-    img = skygauss.render(hdr, SHAPE, [pt(60.25, 60.5 - sep / 2, 1.0), pt(60.25, 60.5 + sep / 2, -0.8)])
+    img = skygauss.render(hdr, SHAPE, [pt(60.25, 60.5 - sep / 2, 1.0), pt(60.25, 60.5 + sep / 2, case.get("neg_peak", -0.8))])
     img = np.round(img * Q) / Q
-    sig = "sep=%g" % sep
+    sig = "sep=%g,neg=%g" % (sep, case.get("neg_peak", -0.8))
     res = {}
     for sign in (1.0, -1.0):
         f = os.path.join(d, "c13_mixed.fits")
         scenes.write_image(f, hdr, sign * img)
         try:
-            res[sign] = run(f, dict(rms=SIGMA, bkg=0.0), False, False, False)
+            cats = {}
+            for nopos, noneg in POLARITIES:
+                cats[(nopos, noneg)] = run(f, dict(rms=SIGMA, bkg=0.0), nopos, noneg, False)
+            res[sign] = cats[(False, False)]
+            # the polarity filters on an island that holds both signs
+            which = "the mixed-sign island image" if sign > 0 else "the negated mixed-sign island image"
+            clause_b(cats[(False, False)], cats[(False, True)], cats[(True, False)], ctx, "mixed_island," + sig, which)
+            clause_c(cats[(True, True)], ctx, "mixed_island," + sig, which)
         except Exception as e:
             ctx.violation("finder raised %r on a mixed-sign island (%s)" % (e, sig), "raise_mixed|" + sig)
             return
